@@ -42,7 +42,8 @@ PROBES = ["add_under_installed_name_first", "lookup_repeated_after_add", "ops", 
           "lookup_failed", "wrong_case_name", "second_manager", "external_not_discovered", "listing_compared", "duplicate_after_prioritize"]
 TYPES = ["optimizer", "sampler", "realization_filter", "function_estimator", "plan_handler", "plan_step"]
 # universe: (base name, methods, allows_discovery)
-UNIVERSE = [("alpha", {"m1", "m2"}, True), ("beta", {"m1", "m2", "m3"}, True), ("gamma", {"m1", "m3", "m4"}, False), ("delta", {"m4", "slsqp", "norm", "mean"}, True)]
+UNIVERSE = [("alpha", {"m1", "m2"}, True), ("beta", {"m1", "m2", "m3"}, True), ("gamma", {"m1", "m3", "m4"}, False), ("deltaßσ", {"m4", "slsqp", "norm", "mean"}, True)]
+# (the last name contains letters whose upper-case forms do not lower() back - sharp s, final sigma: caseless means casefold)
 METHODS = ["m1", "m2", "m3", "m4", "m5", "slsqp", "norm", "mean"]
 
 
@@ -90,7 +91,7 @@ def _sym_ops(ptype: str):
     ops.append({"op": "add", "m": 0, "type": ptype, "plugin": 1, "name": "Default", "prio": True})
     for meth in ("m1", "m3", "m4", "slsqp"):
         ops.append({"op": "get", "m": 0, "type": ptype, "method": meth})
-    for nm in ("alpha", "GAMMA", "delta", "scipy", "external", "default"):
+    for nm in ("alpha", "GAMMA", UNIVERSE[3][0], UNIVERSE[3][0].upper(), "scipy", "external", "default"):
         ops.append({"op": "get", "m": 0, "type": ptype, "method": f"{nm}/m1"})
         ops.append({"op": "supported", "m": 0, "type": ptype, "method": f"{nm}/m4"})
     return ops
@@ -133,7 +134,7 @@ def generate(seed: int, index: int, tier: str) -> dict:
             if rng.random() < 0.5:
                 meth = rng.choice(METHODS)
             else:
-                nm = rng.choice(["alpha", "beta", "gamma", "delta", "scipy", "external", "default", "nope"])
+                nm = rng.choice(["alpha", "beta", "gamma", UNIVERSE[3][0], "scipy", "external", "default", "nope"])
                 meth = f"{_case(rng, nm)}/{rng.choice(METHODS + ['default'])}"
             ops.append({"op": "get", "m": m, "type": ptype, "method": meth})
             lookups.append(ops[-1])
@@ -141,7 +142,7 @@ def generate(seed: int, index: int, tier: str) -> dict:
             if rng.random() < 0.5:
                 meth = rng.choice(METHODS)
             else:
-                nm = rng.choice(["alpha", "beta", "gamma", "delta", "scipy", "external", "nope"])
+                nm = rng.choice(["alpha", "beta", "gamma", UNIVERSE[3][0], "scipy", "external", "nope"])
                 meth = f"{_case(rng, nm)}/{rng.choice(METHODS)}"
             ops.append({"op": "supported", "m": m, "type": ptype, "method": meth})
             lookups.append(ops[-1])
@@ -155,7 +156,7 @@ class Model:
         self.reg = {t: list(initial[t]) for t in TYPES}  # ordered (lower name, plugin)
 
     def add(self, t, name, plugin, prio):
-        low = name.lower()
+        low = name.casefold()
         if any(n == low for n, _ in self.reg[t]):
             return "ConfigError"
         if prio:
@@ -168,7 +169,7 @@ class Model:
         parts = method.split("/", 1)
         if len(parts) > 1:
             for n, p in self.reg[t]:
-                if n == parts[0].lower():
+                if n == parts[0].casefold():
                     return p if p.is_supported(parts[1]) else "ConfigError"
             return "ConfigError"
         for n, p in self.reg[t]:
@@ -237,12 +238,12 @@ def execute(scn: dict) -> dict:
             added = added or want is None
             if op["prio"] and want is None:
                 probe("prioritized_add")
-                prioritized_names.add((m, t, op["name"].lower()))
+                prioritized_names.add((m, t, op["name"].casefold()))
             if want == "ConfigError":
                 probe("duplicate_rejected")
-                if i == 0 and op["name"].lower() in ("scipy", "default", "external"):
+                if i == 0 and op["name"].casefold() in ("scipy", "default", "external"):
                     probe("add_under_installed_name_first")
-                if (m, t, op["name"].lower()) in prioritized_names:
+                if (m, t, op["name"].casefold()) in prioritized_names:
                     probe("duplicate_after_prioritize")
             if got != want:
                 viol.append({"clause": "add-plugin-outcome", "sig": {"want": str(want)}, "detail": f"{where}: got {got}, reference {want}"})
